@@ -124,7 +124,10 @@ Nested == { <<"abs", TA, App(AllC(TA), <<"abs", TA, EqA(B1, B0)>>)>>,           
             <<"abs", TA, <<"abs", TA, EqA(B1, B0)>> >>,                               \* %x y. x = y
             App(AllC(TA), <<"abs", TA, App(AllC(TA), <<"abs", TA, EqA(B1, B0)>>)>>),  \* !x y. x = y
             App(AllC(TA), <<"abs", TA, App(AllC(TA), <<"abs", TA, App(App(ImpC, App(sF, B1)), EqA(B0, sx))>>)>>),  \* !x y. ?F x --> y = ?x
-            <<"abs", TA, App(<<"abs", FunT(TA, BoolT), App(B0, B1)>>, vR)>> }         \* %x. (%g. g x) R
+            <<"abs", TA, App(<<"abs", FunT(TA, BoolT), App(B0, B1)>>, vR)>>,          \* %x. (%g. g x) R
+            \* the SAME open sub-term (R (Bound 0)) at two binder depths: shared as one object by the "shared" replay route
+            <<"abs", TA, App(App(EqC(BoolT), App(vR, B0)), App(AllC(TA), <<"abs", TA, App(vR, B0)>>))>>,      \* %x. R x = (!y. R y)
+            <<"abs", TA, App(App(ImpC, App(vR, B0)), App(AllC(TA), <<"abs", TA, App(App(ImpC, App(vR, B0)), App(vR, B1))>>))>> }
 Universe == { t \in UNION { Gen(Sig, ArgTypes, T, Depth, <<>>) : T \in TopTypes } : Size(t) <= MaxSize } \cup Nested
 \* open terms under one binder of type 'a (for loose-bound arguments)
 OpenArgs == { t \in Gen(Sig, {TA}, TA, 1, <<TA>>) : Size(t) <= 3 }
